@@ -35,6 +35,10 @@ CLAIM = {
 }
 
 
+CLAIM["text"] += (" (R18.6) `across restarts`, storage side: the persister writes, deletes and reads a channel entry under the "
+                  "initial channel id (id0) - the id the restore path parses back from the key and derives the keys from (same "
+                  "obligations as C11 R11.5).")
+
 def run(ctx):
     ctx.explanation = CLAIM["text"]
     ctx.not_decided = "collision resistance (distinct ids give distinct keys); BOLT-3 tree structure of LDK secrets"
@@ -43,6 +47,7 @@ def run(ctx):
     r183(ctx)
     r184(ctx)
     r185(ctx)
+    r186(ctx)
 
 
 def r181(ctx):
@@ -328,3 +333,11 @@ def r185(ctx):
                f"derive_channel_keys derives from `{render(e)[:100]}`, not from the keys id it was given unchanged: for key styles whose "
                "id is not already in that form the sweep path gets other keys than the channel has", where=f"{b.file}:{ln}",
                sample="get_channel_keys_with_keys_id(keys_id, ..)")
+
+
+def r186(ctx):
+    """restart derives the channel's keys from the id the persister hands back, which it parses from the storage key
+    (R18.3); so every write of the entry must be keyed by id0 too.  Same obligations as C11 R11.5."""
+    from rules import C11 as _c11
+    from engine import report as _report
+    _c11.r115(_report.renamed(ctx, {"R11.5": "R18.6"}))
